@@ -142,6 +142,12 @@ impl Check for C01 {
             let faults_json = || J::Arr(applied.iter().map(|f| f.to_json()).collect());
             delivery(seed ^ k as u64, idx, ctx, out, &mut tr, &d, !applied.is_empty(), fired_kinds, bases[k].source, &faults_json, &prov);
         }
+        if idx == crate::lensweep::LONG_CHAIN_EPISODE {
+            let chain = crate::lensweep::long_chain();
+            ctx.stats.fault("long-chain", 1);
+            let desc = || J::Arr(vec![J::from("2^20 header-only packets")]);
+            delivery(seed ^ 0x10c, idx, ctx, out, &mut tr, &chain, true, 0x10c, "long-chain", &desc, &|| J::obj().set("source", "2^20 header-only packets"));
+        }
         // the 16-bit length field: a delivery of up to 256 KiB through every accessor, Debug
         // rendering and iterator costs tens of milliseconds, so this consumer takes the values
         // arithmetic is most likely to get wrong (about 70 in quick, about 800 in thorough); the
